@@ -38,6 +38,9 @@ ASSUMPTIONS = [
     "tied to the code by this sampled correspondence",
 ]
 TRUSTED = [
+    "pieces of find_islands regenerated from source on every run (translator/targets/C02.py, C11.py): threshold comparisons, "
+    "isfinite conjunct, seed scope, label arithmetic, region probe arithmetic + origin + scope; assembled by the fixed glue "
+    "findIslandsGen / findRestrictedSky, proved equal to the hand model, and evaluated by the driver on every case (gen flag)",
     "scipy.ndimage.label / find_objects: NOT trusted blind - the label array is exported per case and accepted only if "
     "the Lean-verified checker (checkLabelling_sound) certifies it against a BFS forest",
     "the driver's own BFS labeller is unverified; its output is certified per case by the same checker",
@@ -324,6 +327,7 @@ def parse_answer(ans):
         isl.append(dict(box=box, frame=frame, pix=pix))
     isl.sort(key=lambda d: (d['box'], d['pix']))
     return dict(own=flags['own'] == '1', sci=flags['sci'] == '1', same=flags['same'] == '1', n=int(flags['n']),
+                gen=flags.get('gen', '1') == '1',
                 islands=isl)
 
 
@@ -410,6 +414,17 @@ def judge(ctx, prop, c, impl, model, record=True):
             ctx.fail('corr', c, "the Lean-verified checker rejected scipy.ndimage.label's label array "
                      "(the IsLabelling assumption fails on this case)", dict(site='scipy.ndimage.label', what='contract'))
             return ['scipy']
+        if not model['gen']:
+            # the glue over the pieces regenerated from the source (findIslandsGen / findRestrictedSky) disagrees with the
+            # hand model on this case: either a regenerated obligation is broken (then the proof step says which) or the
+            # translator / glue is wrong
+            ctx.count('regenerated-glue-differs')
+            if not ctx.extra.get('glue_reported'):
+                ctx.extra['glue_reported'] = True
+                ctx.fail('corr', c, "find_islands assembled from the regenerated pieces differs from the hand model "
+                         "(see the proof obligations on Gen.* in Properties)", dict(site='regenerated-glue', what='gen'))
+        else:
+            ctx.count('regenerated-glue-agrees')
         if not model['same']:
             ctx.fail('corr', c, "findIslands differs between two certified labellings (contradicts islands_eq_spec)",
                      dict(site='driver', what='labelling-independence'))
